@@ -16,6 +16,7 @@ type Summary struct {
 	Defs   []*Term
 	Pre    []*Term
 	Rnd    []*Term
+	Rnd32  []*Term
 	Err    string
 }
 
@@ -68,6 +69,7 @@ func (s *Session) summarize(key string) *Summary {
 	sm.Result = res
 	sm.Defs = u.defs
 	sm.Rnd = u.rndArgs
+	sm.Rnd32 = u.rndArgs32
 	sm.Pre = u.old.assume
 	for n, v := range u.entry {
 		if v.Term != nil {
@@ -83,6 +85,7 @@ type SummaryInst struct {
 	Result *Term
 	Facts  []*Term // definitions and precondition
 	Rnd    []*Term
+	Rnd32  []*Term
 }
 
 func (sm *Summary) instance(args map[string]*Term, suffix string) *SummaryInst {
@@ -125,6 +128,9 @@ func (sm *Summary) instance(args map[string]*Term, suffix string) *SummaryInst {
 	for _, r := range sm.Rnd {
 		si.Rnd = append(si.Rnd, ren(r))
 	}
+	for _, r := range sm.Rnd32 {
+		si.Rnd32 = append(si.Rnd32, ren(r))
+	}
 	return si
 }
 
@@ -149,6 +155,9 @@ func (s *Session) lemmasC17() []*Obligation {
 			facts = append(facts, in.Facts...)
 			for _, r := range in.Rnd {
 				lu.noteRnd(r)
+			}
+			for _, r := range in.Rnd32 {
+				lu.noteRnd32(r)
 			}
 		}
 		ax := lu.rfAxioms(hints)
